@@ -28,6 +28,7 @@ _DAYS = [dt.date(2024, 5, 15), dt.date(2025, 2, 27), dt.date(2026, 12, 30)]
 
 BASE = {
     "a.zo": f"""# A page #shared +pa
+# st::active
 
 - 240101#A1 first note v0 [[sub/b]] key::one
 o P1 240101#A2 todo in a #only_here
@@ -38,6 +39,7 @@ o P1 240101#A2 todo in a #only_here
 - 240103#A4 note in section
 """,
     "sub/b.zo": f"""# B page #shared
+# st::backlog
 
 - 240201#B1 b first [[a]] key::two
 o 240202#B2 b todo to move %bob
@@ -77,7 +79,7 @@ QUERIES = [
     "S note O alpha G none", "S note W #shared O alpha G none", "S note W o O alpha G none",
     "S note W #only_here O alpha G none", "S note W key:* O alpha G none", "S note W [[a]] O alpha G none",
     "S note W [[sub/b]] O alpha G none", "S # O alpha", "S prop O alpha", "S file O alpha",
-    "S count(note)", "S note W f=s* O alpha G none",
+    "S count(note)", "S note W f=s* O alpha G none", "S note W st=active O alpha G none", "S prop:st O alpha",
 ]
 
 
